@@ -10,6 +10,7 @@ from ..runner import Report, kernel_phase, run_driver, split_blocks
 
 PID = 'C14'
 GAP_THEOREMS = ['refill_add', 'refill_progress', 'refill_enough_gaps', 'batch_size_exact_gaps']
+NESTED_THEOREMS = ['calls_snoc', 'delivered_eq_stream_of_batches', 'state_inv', 'wf_nthBatch', 'nested_stream']
 THEOREMS = ['batch_stream', 'batch_stream_from_init', 'batch_size_exact', 'refill_enough', 'refill_inv', 'get_inv',
             'refill_aligned', 'init_inv']
 
@@ -315,6 +316,8 @@ def check(tier, seed):
     rep = Report(PID, tier, seed)
     ok, hits = kernel_phase(rep, 'NdeVerif.Proofs.C14', 'NdeVerif.C14', THEOREMS)
     ok2, _ = kernel_phase(rep, 'NdeVerif.Proofs.C14Gaps', 'NdeVerif.C14', GAP_THEOREMS, tag='C14gaps')
+    ok3, _ = kernel_phase(rep, 'NdeVerif.Proofs.C14Nested', 'NdeVerif.C14', NESTED_THEOREMS, tag='C14nested')
+    ok2 = ok2 and ok3
     ok = ok and ok2
     if hits:
         print('forbidden tokens:', hits)
